@@ -505,13 +505,19 @@ def check_geometries(ctx, specs, small=False):
         for spec in chunk:
             t0 = time.time()
             win, nwin, pwin = windows(spec, small=small)
-            g = build(spec)
-            rec = real_full(g, win, nwin, pwin)
+            cj = {k: v for k, v in spec.items() if not k.startswith("_")}
+            try:
+                g = build(spec)
+                rec = real_full(g, win, nwin, pwin)
+            except Exception as e:   # the enumerated geometries are all valid: the real methods must not raise on them
+                ctx.fail("oracle", "c20:geom-crash", f"{type(e).__name__}: {e} while constructing / querying {cj} "
+                         f"(sites(), bonds(), nn_site, nn_bond_dirn, f_ordered, site2index on lattice sites)",
+                         case={"kind": "geom", "spec": cj}, concrete=spec.get("_oracle", True))
+                continue
             if spec.get("_oracle", True):
                 oracle_geometry(ctx, spec, g, win, nwin, pwin, rec)
             else:
                 ctx.count("geom-without-oracle")
-            cj = {k: v for k, v in spec.items() if not k.startswith("_")}
             ctx.case({"kind": "geom", "spec": cj}, nontrivial=True, sample_every=53)
             ctx.evaluations += len(rec["nn"]) * (8 + len(SHIFTS)) + len(rec["idx"]) + 2 * len(rec["ford"]) ** 2
             reqs.append({"geom": cj, "window": win, "nwindow": nwin, "pwindow": pwin, "K": K})
@@ -598,6 +604,10 @@ def check_patterns(ctx):
                 real.append(("ok", g))
             except YastnError as e:
                 real.append(("err", e))
+            except Exception as e:   # a rectangular integer pattern is either accepted or rejected with YastnError
+                real.append(("err", e))
+                ctx.fail("oracle", "c20:pattern-crash", f"RectangularUnitcell({pat}) raises {type(e).__name__}: {e}",
+                         case={"kind": "pattern", "pattern": pat}, concrete=True)
         # oracle: accepted iff all equally labelled cells have equal 4-neighbourhoods
         for pat, (st, g) in zip(chunk, real):
             want = ref_pattern_valid(pat)
@@ -951,7 +961,10 @@ def check_containers(ctx, specs):
     per_geom = 3 if ctx.quick else 12
     reqs, reals = [], []
     for spec in specs:
-        g = build(spec)
+        try:
+            g = build(spec)
+        except Exception:
+            continue    # reported by check_geometries
         Nx, Ny = spec_dims(spec)
         for k in range(per_geom):
             wild = (k % 3 == 2)
@@ -960,7 +973,12 @@ def check_containers(ctx, specs):
             script = gen_script(rng, spec, wild)
             cj = {kk: v for kk, v in spec.items() if not kk.startswith("_")}
             case = {"kind": "script", "spec": cj, "container": cls.__name__, "init": init, "script": script, "wild": wild}
-            init_err, st0, trace = run_script_probed(cls, g, init, script, spec, wild)
+            try:
+                init_err, st0, trace = run_script_probed(cls, g, init, script, spec, wild)
+            except Exception as e:
+                ctx.fail("oracle", "c20:container-crash", f"{cls.__name__} on {cj}: unexpected {type(e).__name__}: {e} in script {script}",
+                         case=case, concrete=not wild)
+                continue
             ctx.case(case, nontrivial=True, sample_every=101)
             ctx.count(f"script:{'wild' if wild else 'valid'}:{cls.__name__}:{'init-' + init_err if init_err else 'ran'}")
             for tr in trace:
@@ -1139,9 +1157,13 @@ def replay(ctx, obj):
         spec = dict(case["spec"])
         if spec["cls"] == "rect" and "pattern" in spec:
             spec["_pattern"] = spec["pattern"]
-        g = build(spec)
         win, nwin, pwin = windows(spec, small=(spec["cls"] == "rect"))
-        rec = real_full(g, win, nwin, pwin)
+        try:
+            g = build(spec)
+            rec = real_full(g, win, nwin, pwin)
+        except Exception as e:
+            ctx.fail("oracle", "c20:geom-crash", f"{type(e).__name__}: {e} while constructing / querying {case['spec']}", case=case, concrete=True)
+            return
         oracle_geometry(ctx, spec, g, win, nwin, pwin, rec)
         ctx.case(case)
     elif kind == "pattern":
@@ -1152,6 +1174,9 @@ def replay(ctx, obj):
             st = "ok"
         except YastnError:
             st = "err"
+        except Exception as e:
+            st = "err"
+            ctx.fail("oracle", "c20:pattern-crash", f"RectangularUnitcell({pat}) raises {type(e).__name__}: {e}", case=case, concrete=True)
         if ref_pattern_valid(pat) != (st == "ok"):
             ctx.fail("oracle", "c20:pattern-accept" if st == "ok" else "c20:pattern-reject", f"RectangularUnitcell({pat}) is {st}", case=case, concrete=True)
         ctx.case(case)
